@@ -15,7 +15,10 @@ ASSUMPTIONS = [
     "and on every reported violation",
 ]
 SPEC = {
-    'quick': [('K0', 'std', 3),
+    'quick': [('K9s', 'liq', 4),
+              ('K20', 'std', 3),
+              ('K20', 'small', 4),
+              ('K0', 'std', 3),
               ('K9', 'full', 3),
               ('K0', 'liq', 4),
               ('K9', 'liq', 4),
